@@ -100,6 +100,13 @@ def generate(repo, ws, write_if_changed):
              dict(kind="trait", name="HeaderRequestExt"),
              dict(kind="impl", impl=r"impl HeaderRequestExt for HeaderRequest"),
          ]))
+    emit("commitment_c12.rs", slice_file(repo, "types/src/blob/commitment.rs", [
+        dict(kind="fn", name="merkle_mountain_range_sizes"),
+        dict(kind="fn", name="blob_min_square_size"),
+        dict(kind="fn", name="subtree_width"),
+        dict(kind="fn", name="round_up_to_power_of_2"),
+        dict(kind="fn", name="round_down_to_power_of_2"),
+    ]))
     emit("namespace_proof_c16.rs", slice_file(repo, "types/src/nmt/namespace_proof.rs", [
         dict(kind="fn", name="total_leaves", impl=r"^impl NamespaceProof$", wrap="impl NamespaceProof"),
     ]))
